@@ -10,6 +10,8 @@ from . import mergerules as mr
 from . import mergetrace as mt
 from .tagtable import check_flag_tags, constructors
 
+from .common import Guard  # noqa: E402
+
 PROP = 'C08'
 DECIDED = [
     'R1: in the container merge every attachment of newer content is preceded by the new-path check (on the value for a new key, below a replaced leaf; recursion covers merged containers); the wholesale-replacement return is preceded by other._require_all_new(path, exceptions=removed).',
@@ -194,14 +196,16 @@ def r5(repo, run):
 
 
 def check(repo, run, tier):
-    mr.key_loop_paths(repo, run, 'C08.R1k', rule_new='C08.R1')
-    r1_replacement(repo, run)
+    g = Guard()
+    g(mr.key_loop_paths, repo, run, 'C08.R1k', rule_new='C08.R1')
+    g(r1_replacement, repo, run)
     run.floor('C08.R1', 4)
-    r2(repo, run)
-    r3(repo, run)
-    mr.propagation_table(repo, run, 'C08.R3', 'allow_new')
-    r4(repo, run)
-    r5(repo, run)
+    g(r2, repo, run)
+    g(r3, repo, run)
+    g(mr.propagation_table, repo, run, 'C08.R3', 'allow_new')
+    g(r4, repo, run)
+    g(r5, repo, run)
+    g.done()
 
 
 def mutants(repo):
